@@ -81,6 +81,8 @@ RULE = (
     'the score bytes; non-trivial = >= 2 packets entered the score, one '
     'with a nested list, array, unaligned blob or non-ASCII string. '
     'Distinct by sha1 of the canonical case JSON.')
+RULE += ' ' + (
+    'The clump stage offers one non-ASCII address: a refusal (UnicodeEncodeError) is accepted, an over-limit datagram is not.')
 ASSUMPTIONS = [
     'Addresses are valid OSC 1.0 ASCII addresses (no pattern characters); '
     'the clump stage also offers one non-ASCII address, which the library '
